@@ -8,7 +8,6 @@ import (
 	"reflect"
 	"strconv"
 	"strings"
-	"time"
 
 	"vmon/internal/clause"
 	"vmon/internal/core"
@@ -188,7 +187,6 @@ func init() {
 			"distinct = distinct (carrier, kind, value, rule text); non-trivial = value non-zero and within 1 of a bound, or expected-violated",
 		Exhaustive: func(t core.Tier) bool { return true },
 		Shards:     func(t core.Tier) int { return 16 },
-		Timeout:    func(t core.Tier) time.Duration { return 20 * time.Minute },
 		Run:        runC01,
 		Check: func(r *core.Result, t core.Tier) {
 			tot := r.Counters["expected_violated"] + r.Counters["expected_clean"]
